@@ -1,6 +1,7 @@
 // UNIT V-NODE (C01, C03, C09, C14): analysis/node.rs  concat_nodes / concat_oov_nodes / NodeSplitIterator::next / split / num_splits
 use vstd::prelude::*;
 use vstd::string::*;
+use std::ops::Range;
 verus! {
 global size_of usize == 8;
 //@include common/error.rs.inc
@@ -106,17 +107,7 @@ fn vpanic() requires false { }
 //@  | path\.drain\(([^;]+?)\.\.([^;]+?)\);
 //@  > vec_drain_range(&mut path, \1, \2);
 //@  ret res
-//@  spec
-    requires
-        end <= path@.len(),
-        begin < end ==> path@[begin as int].begin_bytes <= path@[end - 1].end_bytes,
-        begin < end ==> sum_hwl(path@, begin as int, end as int) <= u16::MAX,
-    ensures
-        begin >= end ==> res is Err,
-        begin < end ==> res is Ok && merged_at(path@, res->Ok_0@, begin as int, end as int)
-            // the merged token keeps the part of speech of the first merged token; a given normalised form is used as is
-            && res->Ok_0@[begin as int].word_info.data.pos_id == path@[begin as int].word_info.data.pos_id
-            && (normalized_form is Some ==> res->Ok_0@[begin as int].word_info.data.normalized_form@ == normalized_form->Some_0@),
+//@  specfile specs/concat_nodes.contract
 //@  atstart
     let ghost orig = path@;
 //@  loop 1
